@@ -257,5 +257,27 @@ PROPS["C03"] = {
     ],
 }
 
+PROPS["C02"] = {
+    "quick_secs": 14,
+    "thorough_secs": 300,
+    "min_evaluations": 50000,
+    "technique": "differential monitor: falcon-lifted IL run by the reference IL interpreter vs independent MIPS32 and PPC32 interpreters (mipsref/ppcref, written from the architecture manuals) from the same state; MIPS branches together with their delay slot",
+    "rule": "per-opcode templates for every mnemonic the MIPS and PPC lifters dispatch, all register/immediate fields random ($zero destinations, "
+            "aliasing, negative offsets routine), branch + random delay-slot pairs for every MIPS branch/jump (slots aimed at the branch's source and "
+            "link registers), plus uniformly random words; big- and little-endian MIPS. Touched memory is discovered by a probe run of the reference "
+            "and mapped with random bytes. Compared: 31 GPRs, HI/LO (except after mul), r0-r31, LR, CTR, all CR field bits, carry, all memory, next "
+            "PC; a reference trap must correspond to the IL reaching an intrinsic. A difference in a branch+slot case is attributed to the slot "
+            "instruction when that instruction alone also differs. Non-trivial = a compared output changed; distinct = (arch, mnemonic, with-slot).",
+    "level_text": "Sampled (word, state) pairs per mnemonic against independently written interpreters; unaligned accesses, UNPREDICTABLE forms, "
+                  "reserved BO encodings and accesses/branches that wrap around the 32-bit address space are counted and not judged.",
+    "level_note": "trusts harness/src/mipsref.rs (75 hand-computed tests) and ppcref.rs (120 tests), refinterp.rs, refeval.rs; falcon does not model XER[SO]/[OV], so CR SO bits start at 0 and OE forms are not generated",
+    "assumptions": [
+        "XER[SO]/XER[OV] are not modelled by falcon: CR SO bits are initialised to 0 and compares are expected to leave them 0",
+        "loads/stores whose effective address is within 256 bytes of 2^32 and relative branches whose target wraps modulo 2^32 are skipped",
+        "bc* encodings with non-zero reserved 'z' bits in BO are skipped",
+        "MIPS word/halfword accesses that are not naturally aligned raise Address Error architecturally and are skipped",
+    ],
+}
+
 # properties not claimed, with the reason (everything else not in PROPS is 'not built yet')
 NOT_CLAIMED = {}
